@@ -44,7 +44,8 @@ var (
 	MetricNames = []string{"foo", "bar", "baz", "up", "http_requests_total", "node_cpu_seconds_total", "job:foo:rate5m", "errors_total"}
 	LabelNames  = []string{"job", "instance", "a", "b", "c", "severity", "team", "env"}
 	LabelValues = []string{"1", "2", "x", "prod", "critical", "page", "node", "api", "équipe"}
-	AlertNames  = []string{"Foo", "BarDown", "HighErrors", "Foo_Bar", "X1", "InstanceDown", "Alert One"}
+	// "foo:sum" is also a recording rule name: an alert may be called like a recording rule
+	AlertNames  = []string{"Foo", "BarDown", "HighErrors", "Foo_Bar", "X1", "InstanceDown", "Alert One", "foo:sum"}
 	RecordNames = []string{"job:foo:rate5m", "foo:sum", "bar:count", "instance:up:sum", "colo:job:errors", "baz_agg"}
 	Durations   = []string{"5m", "1m", "10m", "1h", "30s", "0s", "2h30m", "1d"}
 	AnnKeys     = []string{"summary", "description", "dashboard", "runbook_url", "link", "note"}
